@@ -64,7 +64,8 @@ def load_known():
 
 def finish(ctx, explanation, level='other'):
     known = load_known()
-    kn = {(f['property'], f['key']): f for f in known.get('findings', [])}
+    from .mir import canon
+    kn = {(f['property'], canon(f['key'])): f for f in known.get('findings', [])}
     new = []
     hit = []
     for key, msg, d in ctx.violations:
@@ -252,6 +253,21 @@ def main(argv):
     seed = int(os.environ.get('VERIF_SEED', '0') or 0)
     from . import rules
     ctx = Ctx(a.pid, a.tier if a.tier in ('quick', 'thorough') else 'quick', seed)
+    # resource guards: an interpretation that runs away (path explosion on code of an unforeseen shape) must end as a broken
+    # precondition, not as a hang or an out-of-memory kill of the machine
+    budget = int(os.environ.get('MCV_TIME_BUDGET', '900' if ctx.tier == 'quick' else '5400'))
+    try:
+        import signal
+
+        class Budget(BaseException):
+            pass
+
+        def on_alarm(signum, frame):
+            raise Budget()
+        signal.signal(signal.SIGALRM, on_alarm)
+        signal.alarm(budget)
+    except Exception:
+        Budget = None
     try:
         expl = rules.run(ctx)
         expl += lemmas(ctx)
@@ -262,7 +278,15 @@ def main(argv):
         if ctx.tier == 'thorough' and ctx.pid in ('C01', 'C02', 'C03', 'C04', 'C05', 'C12', 'C13'):
             expl += ' Thorough tier: the same rules re-run on the MIR of the other feature configurations (none, half, alloc, std).'
             other_configurations(ctx)
-    except Exception as e:  # fail closed, with the reason
+    except BaseException as e:  # fail closed, with the reason
+        if isinstance(e, (KeyboardInterrupt, SystemExit)):
+            raise
+        if Budget is not None and isinstance(e, Budget):
+            ctx.fail_closed('budget', 'the analysis did not finish within %d s: the code has a shape the interpretation does not bound (treated as an alarm, not as a pass)' % budget)
+            return finish(ctx, 'check aborted: time budget exhausted')
+        if isinstance(e, MemoryError):
+            ctx.fail_closed('budget', 'the analysis exceeded its memory budget: path explosion on code of an unforeseen shape')
+            return finish(ctx, 'check aborted: memory budget exhausted')
         from .export import ExportError
         if isinstance(e, ExportError):
             ctx.fail_closed('export', str(e))
